@@ -609,8 +609,9 @@ class SymEnv:
         self.stats = stats
         self.solver = z3.Solver()
         self.solver.set('timeout', timeout_ms)
-        self.prefix = prefix
-        self.trace = []           # [(decision, tag)]
+        self.prefix, self.prefix_exprs = prefix if isinstance(prefix, tuple) else (prefix, {})
+        self.trace = []
+        self.trace_exprs = {}           # [(decision, tag)]
         self.pending = []         # prefixes to explore later
         self.vars = {}            # name -> z3 const (declaration order)
         self._names = {}
@@ -660,7 +661,7 @@ class SymEnv:
         if not feas:
             raise PathAbort()
         for v in feas[1:][::-1]:
-            self.pending.append(self.trace + [(v, tag)])
+            self.pending.append((self.trace + [(v, tag)], dict(self.trace_exprs)))
         if len(feas) > 1:
             self.stats.forks += 1
         self.trace.append((feas[0], tag))
@@ -677,15 +678,27 @@ class SymEnv:
         if k < len(self.prefix):
             d, t = self.prefix[k]
             if t != tag:
-                raise Diverged(f"decision {k}: recorded {t!r}, now {tag!r}")
-            self.trace.append((d, t))
+                # the simplifier orders commutative arguments by internal ids, which differ between
+                # re-executions: accept a textually different condition iff it is equivalent
+                old = self.prefix_exprs.get(k)
+                same = False
+                if old is not None:
+                    s2 = z3.Solver()
+                    s2.set('timeout', 10000)
+                    s2.add(old != cond)
+                    same = s2.check() == z3.unsat
+                if not same:
+                    raise Diverged(f"decision {k}: recorded {t!r}, now {tag!r}")
+            self.trace.append((d, tag))
+            self.trace_exprs[k] = cond
             self.solver.add(cond if d else z3.Not(cond))
             return d
         # the path condition is satisfiable (invariant) -> at least one side is feasible
         can_t = self._check(cond) == z3.sat
         can_f = True if not can_t else self._check(z3.Not(cond)) == z3.sat
+        self.trace_exprs[k] = cond
         if can_t and can_f:
-            self.pending.append(self.trace + [(False, tag)])
+            self.pending.append((self.trace + [(False, tag)], dict(self.trace_exprs)))
             self.stats.forks += 1
             d = True
         elif can_t:
